@@ -15,8 +15,46 @@ cached model of the path condition is known feasible, only the other side is que
 
 Nothing here knows about cardutil.
 """
+import os
 import time
 import z3
+
+import re as _re
+_SAFE = _re.compile(r'[^A-Za-z0-9_.]')
+_CVC5 = [False]
+
+
+def _cvc5():
+    if _CVC5[0] is False:
+        try:
+            import cvc5
+            _CVC5[0] = cvc5
+        except Exception:
+            _CVC5[0] = None
+    return _CVC5[0]
+
+
+def _cvc5_decide(smt2, tlimit_ms):
+    """decide an SMT-LIB2 benchmark with cvc5 (in process) -> 'sat' / 'unsat' / 'unknown'"""
+    cvc5 = _cvc5()
+    try:
+        slv = cvc5.Solver()
+        slv.setOption('tlimit-per', str(tlimit_ms))
+        slv.setLogic('ALL')
+        p = cvc5.InputParser(slv)
+        p.setStringInput(cvc5.InputLanguage.SMT_LIB_2_6, smt2, 'query')
+        sm = p.getSymbolManager()
+        res = 'unknown'
+        while True:
+            cmd = p.nextCommand()
+            if cmd.isNull():
+                break
+            out = cmd.invoke(slv, sm).strip()
+            if out in ('sat', 'unsat', 'unknown'):
+                res = out
+        return res
+    except Exception as e:          # parse problems etc.: undecided, never a verdict
+        return 'error: %s' % str(e)[:80]
 
 
 class ControlFlow(BaseException):
@@ -478,6 +516,9 @@ class Explorer:
         self.solver = z3.Solver()
         self.query_timeout_ms = query_timeout_ms
         self.fast_timeout_ms = 4000
+        self.crosscheck_every = int(os.environ.get('VSYM_CROSSCHECK_EVERY', '0') or 0)
+        self.crosscheck_first = 40
+        self.crosscheck_cap = int(os.environ.get('VSYM_CROSSCHECK_CAP', '400') or 400)
         self._last_model_solver = self.solver
         self.stats = Stats()
         self.max_paths = max_paths
@@ -514,10 +555,37 @@ class Explorer:
         if r == z3.unknown:
             self.stats.unknowns += 1
             raise Inconclusive('solver returned unknown: %s' % self._last_model_solver.reason_unknown())
+        if r == z3.unsat:
+            self._crosscheck(extra)
         return r == z3.sat
 
     def _model(self):
         return self._last_model_solver.model()
+
+    # -- second solver: a sample of the `unsat` answers (the ones that prune paths / discharge requirements) is re-decided by cvc5
+    def _crosscheck(self, extra):
+        st = self.stats
+        st.unsat_answers = getattr(st, 'unsat_answers', 0) + 1
+        if not self.crosscheck_every or _cvc5() is None:
+            return
+        if st.unsat_answers % self.crosscheck_every and st.unsat_answers > self.crosscheck_first:
+            return
+        if getattr(st, 'crosschecked', 0) >= self.crosscheck_cap:
+            return
+        t0 = time.time()
+        tmp = z3.Solver()
+        tmp.add(self.solver.assertions())
+        tmp.add(*extra)
+        verdict = _cvc5_decide(tmp.to_smt2(), 20000)
+        st.crosscheck_s = getattr(st, 'crosscheck_s', 0.0) + time.time() - t0
+        st.crosschecked = getattr(st, 'crosschecked', 0) + 1
+        if verdict == 'unsat':
+            st.crosscheck_agree = getattr(st, 'crosscheck_agree', 0) + 1
+        elif verdict == 'sat':
+            st.crosscheck_disagree = getattr(st, 'crosscheck_disagree', 0) + 1
+            raise Inconclusive('solvers disagree: z3 says unsat, cvc5 says sat')
+        else:
+            st.crosscheck_undecided = getattr(st, 'crosscheck_undecided', 0) + 1
 
     def _holds_in_model(self, cond):
         if self.model is None:
@@ -588,9 +656,10 @@ class Explorer:
         self.model = self._model()
 
     def _uniq(self, name):
+        name = _SAFE.sub('_', name)          # SMT-LIB friendly symbols (the second solver parses the printed queries)
         n = self.counters.get(name, 0)
         self.counters[name] = n + 1
-        return name if n == 0 else '%s#%d' % (name, n)
+        return name if n == 0 else '%s.%d' % (name, n)
 
     def fresh_int(self, name, lo=None, hi=None, named=True):
         nm = self._uniq(name)
